@@ -24,7 +24,8 @@ RULE = ("(a) pairs of (old file database from one generated GFF3/GTF annotation,
 REQUIRED = ["no-force attempts refused", "force imports compared with solitary import", "read-style calls made",
             "statements traced on gffutils' connection", "authorizer events seen", "files re-dumped after read sequences",
             "old databases with un-checkpointed WAL frames", "attempts on a database locked by another connection",
-            "GTF databases built without inference", "look-ups of ids known only as relation parents"]
+            "GTF databases built without inference", "look-ups of ids known only as relation parents",
+            "attempts through an open connection to the existing database", "databases that already hold derived introns"]
 ASSUMPTIONS = [
     "'content untouched' is judged on the independent content dump (byte identity of the file is recorded as a monitor, not demanded)",
     "exceptions raised by a read-style call (e.g. bed12 on non-spanning blocks) are not this property's concern; the call still must not write",
@@ -114,10 +115,22 @@ def pair(ctx, case):
         raised = None
         try:
             kw = {} if case.get("force_kw", "absent") == "absent" else {"force": False}
-            db = gffutils.create_db(new_text, dbfn, from_string=True, **kw)
+            target = dbfn
+            if case.get("target_connection"):
+                # the documented alternative to a path: an open sqlite3 connection (here: to the existing database)
+                target = sqltrace.ORIG_CONNECT(dbfn)
+                ctx.mon("attempts through an open connection to the existing database")
+            db = gffutils.create_db(new_text, target, from_string=True, **kw)
             db.conn.close()
         except Exception as ex:
             raised = ex
+        finally:
+            if case.get("target_connection"):
+                try:
+                    target.rollback()
+                    target.close()
+                except Exception:
+                    pass
         if raised is None:
             ctx.violation(case, {"why": "create_db on an existing database did not raise without force"})
             return
@@ -137,7 +150,7 @@ def pair(ctx, case):
         if d:
             ctx.violation(case, {"why": "a refused create_db changed the existing database", "diff": d})
             return
-        if case["force"] and not case.get("locked"):
+        if case["force"] and not case.get("locked") and not case.get("target_connection"):
             try:
                 db = gffutils.create_db(new_text, dbfn, from_string=True, force=True)
                 db.conn.close()
@@ -257,6 +270,15 @@ def reads(ctx, case):
             kw = {"disable_infer_genes": True, "disable_infer_transcripts": True}
             ctx.mon("GTF databases built without inference")
         gffutils.create_db(text, dbfn, from_string=True, **kw).conn.close()
+        if case.get("stored_derived") and case["fmt"] == "gff3":
+            # a database that already holds features derived earlier (the documented db.update(db.create_introns()))
+            w = gffutils.FeatureDB(dbfn)
+            try:
+                w.update(list(w.create_introns()), make_backup=False, merge_strategy="create_unique")
+                ctx.mon("databases that already hold derived introns")
+            except Exception:
+                pass
+            w.conn.close()
         before, h0 = dbdump.dump(dbfn), sha(dbfn)
         sqltrace.reset()
         db = gffutils.FeatureDB(dbfn, keep_order=case["seed"] % 2 == 0)
@@ -322,7 +344,8 @@ def run(ctx):
         case = {"kind": "pair", "old_seed": rng.randrange(10 ** 6), "new_seed": rng.randrange(10 ** 6),
                 "old_fmt": rng.choice(["gff3", "gtf"]), "new_fmt": rng.choice(["gff3", "gtf"]),
                 "disjoint": rng.random() < 0.5, "force": rng.random() < 0.7, "force_kw": rng.choice(["absent", "False"]),
-                "old_without_stats": rng.random() < 0.3, "old_in_wal_mode": rng.random() < 0.15}
+                "old_without_stats": rng.random() < 0.3, "old_in_wal_mode": rng.random() < 0.15,
+                "target_connection": rng.random() < 0.12}
         execute(ctx, case)
         ctx.case(("pair", case), case["disjoint"], sample=case, cls="pair force=%s" % case["force"])
     # a database that another connection holds locked (each attempt waits for sqlite3's busy timeout, so only a few)
@@ -334,7 +357,7 @@ def run(ctx):
     for _ in range(ctx.budget(480, 16000)):
         calls = [rng.choice(METHODS) for _ in range(40)]
         case = {"kind": "reads", "seed": rng.randrange(10 ** 6), "fmt": rng.choice(["gff3", "gff3", "gtf"]), "calls": calls,
-                "no_infer": rng.random() < 0.4}
+                "no_infer": rng.random() < 0.4, "stored_derived": rng.random() < 0.3}
         execute(ctx, case)
         ctx.case(("reads", case["seed"], case["fmt"], calls), len(set(calls)) >= 6, sample=case if rng.random() < 0.05 else None,
                  cls="read sequence on %s db" % case["fmt"])
